@@ -174,7 +174,7 @@ pub fn cli_threads(args: &[String]) -> i32 {
         "threads", "C14", "E2-threads", seed, iterations, locals, t0, &out, &replay_dir, dump_log,
         |scen, f, sched, rs| {
             let w: Workload = serde_json::from_value(scen.clone()).unwrap();
-            let (mw, mf) = threads::minimise(&w, &f.class, sched, rs, iterations);
+            let (mw, mf) = threads::minimise(&w, f, sched, rs, iterations);
             (serde_json::to_value(&mw).unwrap(), mf)
         },
     )
@@ -225,7 +225,7 @@ pub fn cli_lockstep(args: &[String]) -> i32 {
         "lockstep", "C12", "E2-lockstep", seed, iterations, locals, t0, &out, &replay_dir, dump_log,
         |scen, f, sched, rs| {
             let ls: Lockstep = serde_json::from_value(scen.clone()).unwrap();
-            let (m, mf) = threads::lockstep_minimise(&ls, &f.class, sched, rs, iterations);
+            let (m, mf) = threads::lockstep_minimise(&ls, f, sched, rs, iterations);
             (serde_json::to_value(&m).unwrap(), mf)
         },
     )
